@@ -6,11 +6,25 @@
 //	tables = entry[,entry...]    entry = name=rows            csv table T, row r: id = T[0]+r, name = "n"+r
 //	                                   | src.list=n           list variable `list` of the `variables` source
 //	                                                          `src` with elements src-list[0]<i>, i < n
+//	                                   | g:key=hexw:hexv      scalar variable of the `variables` source g, WRITTEN as
+//	                                                          w (plain text or a template function such as
+//	                                                          randString(3, a): computed once when the source is
+//	                                                          initialised); v = the value it must have afterwards;
+//	                                                          key a.b = variable b inside the map variable a (not
+//	                                                          generated: a nested map read from YAML stays a
+//	                                                          map[interface{}]interface{}; it is neither computed nor
+//	                                                          crossed by preprocessor paths, and it is undocumented)
 //	reqs   = req[;req...]       req  = name,method,pre,post,tmpl
 //	   pre  = - | map[+map...]  map  = var:N:src:field | var:L:src:field | var:I:src:int:field
 //	                                  | var:G:key | var:P:req:var | var:Q:req:var
 //	                                  | var:V:src:list        (source.<src>.<list>[next])
+//	                                  | var:F:hexw:hexv|!     the mapping's value is the template function call w
+//	                                                          (arguments: literals or source variables);
+//	                                                          v = its result, ! = the function returns an error
 //	   post = - | pp[+pp...]    pp   = J:var:field | H:var | A:code | B
+//	                                  | J0 | H0   var/jsonpath, var/header with an EMPTY mapping (no effect, the body
+//	                                              is not even parsed)
+//	                                  | HE:var    var/header  var: "X-Tok|lower(": malformed modifier, fails on every response
 //	   tmpl = base[!h|!t]          !h = templater: {type: html}, !t = templater: {type: text} (default: none written)
 //	   base = -                   the standard parts only
 //	        | E | EH | EU | EB    a template that fails at execution on every tree: header X-Bad (E: nothing written
@@ -69,9 +83,13 @@ type VList struct {
 // Elem is element i of the list.
 func (v VList) Elem(i int) string { return fmt.Sprintf("%s-%s%d", v.Src, v.List[:1], i) }
 
+// GVar: a scalar variable of source g as written.
+type GVar struct{ Key, Written string }
+
 type Spec struct {
 	Tables []Table
 	VLists []VList
+	GVars  []GVar
 	Reqs   []Req
 	Scens  []Scen
 }
@@ -83,7 +101,7 @@ func ParseTables(s string) []Table {
 	}
 	for _, p := range strings.Split(s, ",") {
 		kv := strings.SplitN(p, "=", 2)
-		if strings.Contains(kv[0], ".") {
+		if strings.Contains(kv[0], ".") || strings.HasPrefix(kv[0], "g:") {
 			continue
 		}
 		n, _ := strconv.Atoi(kv[1])
@@ -99,6 +117,9 @@ func ParseVLists(s string) []VList {
 	}
 	for _, p := range strings.Split(s, ",") {
 		kv := strings.SplitN(p, "=", 2)
+		if strings.HasPrefix(kv[0], "g:") {
+			continue
+		}
 		if i := strings.IndexByte(kv[0], '.'); i >= 0 {
 			n, _ := strconv.Atoi(kv[1])
 			out = append(out, VList{Src: kv[0][:i], List: kv[0][i+1:], N: n})
@@ -107,8 +128,24 @@ func ParseVLists(s string) []VList {
 	return out
 }
 
+func ParseGVars(s string) []GVar {
+	var out []GVar
+	if s == "-" || s == "" {
+		return out
+	}
+	for _, p := range strings.Split(s, ",") {
+		kv := strings.SplitN(p, "=", 2)
+		if strings.HasPrefix(kv[0], "g:") {
+			out = append(out, GVar{Key: kv[0][2:], Written: string(vh.UnHex(strings.SplitN(kv[1], ":", 2)[0]))})
+		}
+	}
+	return out
+}
+
 func pathOf(f []string) string {
 	switch f[1] {
+	case "F":
+		return string(vh.UnHex(f[2]))
 	case "N":
 		return "source." + f[2] + "[next]." + f[3]
 	case "L":
@@ -180,7 +217,7 @@ func ParseScens(s string) []Scen {
 }
 
 func ParseSpec(tables, reqs, scens string) Spec {
-	return Spec{Tables: ParseTables(tables), VLists: ParseVLists(tables), Reqs: ParseReqs(reqs), Scens: ParseScens(scens)}
+	return Spec{Tables: ParseTables(tables), VLists: ParseVLists(tables), GVars: ParseGVars(tables), Reqs: ParseReqs(reqs), Scens: ParseScens(scens)}
 }
 
 // CSV returns the content of the csv file of a table.
@@ -202,7 +239,20 @@ func (s Spec) YAML(prefix string) []byte {
 		sources = append(sources, m{"name": t.Name, "type": "file/csv", "file": prefix + t.Name + ".csv",
 			"fields": []string{"id", "name"}, "ignore_first_line": false, "delimiter": ","})
 	}
-	sources = append(sources, m{"name": "g", "type": "variables", "variables": m{"a": "va", "b": "vb"}})
+	gv := m{"a": "va", "b": "vb", "k7": "7", "k2": "2"}
+	for _, v := range s.GVars {
+		if i := strings.IndexByte(v.Key, '.'); i >= 0 {
+			sub, _ := gv[v.Key[:i]].(m)
+			if sub == nil {
+				sub = m{}
+				gv[v.Key[:i]] = sub
+			}
+			sub[v.Key[i+1:]] = v.Written
+		} else {
+			gv[v.Key] = v.Written
+		}
+	}
+	sources = append(sources, m{"name": "g", "type": "variables", "variables": gv})
 	var vsrc []string
 	vvars := map[string]m{}
 	for _, v := range s.VLists {
@@ -266,6 +316,12 @@ func (s Spec) YAML(prefix string) []byte {
 				posts = append(posts, m{"type": "var/jsonpath", "mapping": m{f[1]: "$." + f[2]}})
 			case "H":
 				posts = append(posts, m{"type": "var/header", "mapping": m{f[1]: "X-Tok"}})
+			case "J0":
+				posts = append(posts, m{"type": "var/jsonpath", "mapping": m{}})
+			case "H0":
+				posts = append(posts, m{"type": "var/header", "mapping": m{}})
+			case "HE":
+				posts = append(posts, m{"type": "var/header", "mapping": m{f[1]: "X-Tok|lower("}})
 			case "A":
 				code, _ := strconv.Atoi(f[1])
 				posts = append(posts, m{"type": "assert/response", "status_code": code})
